@@ -1,6 +1,7 @@
 (* C09: the tree-aware operations of model/GraphTree.v (register_static_tree, the _t variants of the
    declaration functions, the pre-step of delete_detached) preserve Inv, the frame GG (I4, I5c) and
-   the frame TT (tree conjunct T1). *)
+   the frame W = TT /\ U (tree conjuncts T1 and T3'); T2 / T3' under the hypothesis that define_step
+   re-attaches no static tree. *)
 From Coq Require Import List NArith Bool Lia.
 From SV Require Import lib.Bytes lib.Closure model.Graph model.GraphInv model.GraphTree model.GraphTreeInv
   proofs.GraphBase proofs.GraphNodes proofs.GraphInvP proofs.GraphPrims proofs.GraphFrames proofs.GraphCreate
@@ -9,8 +10,64 @@ From SV Require Import lib.Bytes lib.Closure model.Graph model.GraphInv model.Gr
 Import ListNotations.
 Open Scope N_scope.
 
-(* nodes only appear *)
-Definition KI (s s' : st) : Prop := incl (KL (nodes s)) (KL (nodes s')).
+(* nodes only appear and no static tree becomes attached *)
+Definition KI (s s' : st) : Prop := incl (KL (nodes s)) (KL (nodes s')) /\ ATF s s'.
+Lemma KI_refl s : KI s s.
+Proof. split; [apply incl_refl | apply ATF_refl]. Qed.
+Lemma KI_trans s1 s2 s3 : KI s1 s2 -> KI s2 s3 -> KI s1 s3.
+Proof. intros [A1 A2] [B1 B2]. split; [eapply incl_tran; eassumption | eapply ATF_trans; eassumption]. Qed.
+Lemma KI_NF (K : list key) s s' : (forall x, In x K -> fst x <> KTree) -> NF K s s' -> KI s s'.
+Proof. intros HK HN. split; [apply (proj1 HN) | eapply ATF_NF; eassumption]. Qed.
+Lemma KI_nodes s s' : nodes s' = nodes s -> KI s s'.
+Proof. intros E. split; [rewrite E; apply incl_refl | apply ATF_nodes; exact E]. Qed.
+Lemma fkey_not_tree (l : str) : forall x : key, In x [(KFile, l)] -> fst x <> KTree.
+Proof. intros x [<-|[]]. discriminate. Qed.
+
+Lemma is_prefix_comparable a : forall b l,
+  is_prefix a l = true -> is_prefix b l = true -> is_prefix a b = true \/ is_prefix b a = true.
+Proof.
+  induction a as [|x a IH]; intros b l Ha Hb; [left; reflexivity|].
+  destruct b as [|y b]; [right; reflexivity|]. destruct l as [|z l]; [discriminate|].
+  cbn in Ha, Hb. apply andb_true_iff in Ha. apply andb_true_iff in Hb. destruct Ha as [A1 A2]. destruct Hb as [B1 B2].
+  apply N.eqb_eq in A1. apply N.eqb_eq in B1. subst x y. cbn. rewrite N.eqb_refl. cbn. apply (IH b l A2 B2).
+Qed.
+
+Lemma owning_trees_In l s t : AT s t -> is_prefix t l = true -> In t (owning_trees l s).
+Proof.
+  unfold AT. rewrite is_detached_findn. destruct (findn (KTree, t) (nodes s)) as [n|] eqn:Hn; [|discriminate].
+  intros Hd Hp. pose proof (findn_In _ _ _ Hn) as [Hin Hk]. unfold owning_trees. apply in_map_iff.
+  exists n. split; [rewrite Hk; reflexivity|]. apply filter_In. split; [exact Hin|]. rewrite Hk, Hd. cbn. exact Hp.
+Qed.
+
+Lemma find_owning_tree_unique l s t t0 :
+  find_owning_tree l s = Ok (Some t) -> AT s t0 -> is_prefix t0 l = true -> t0 = t.
+Proof.
+  unfold find_owning_tree. destruct (owning_trees l s) as [|a [|b r]] eqn:E; try discriminate.
+  intros H; inversion H; subst a. intros Ha Hp. pose proof (owning_trees_In l s t0 Ha Hp) as Hin.
+  rewrite E in Hin. destruct Hin as [<-|[]]. reflexivity.
+Qed.
+Lemma find_owning_tree_none_spec l s t :
+  find_owning_tree l s = Ok None -> AT s t -> is_prefix t l = false.
+Proof.
+  unfold find_owning_tree. destruct (owning_trees l s) as [|a [|b r]] eqn:E; try discriminate.
+  intros _ Ha. destruct (is_prefix t l) eqn:Hp; [|reflexivity].
+  pose proof (owning_trees_In l s t Ha Hp) as Hin. rewrite E in Hin. destruct Hin.
+Qed.
+
+(* a declarer c of the path l is consistent with the attached trees *)
+Definition decl_ok (c : key) (l : str) (f : fstate) (s : st) : Prop :=
+  (forall t, AT s t -> is_prefix t l = true -> c = (KTree, t)) /\
+  (fst c = KTree -> f = FUnconfirmed /\ is_prefix (snd c) l = true).
+Lemma decl_ok_ATF c l f s s' : ATF s s' -> decl_ok c l f s -> decl_ok c l f s'.
+Proof. intros HA [A B]. split; [|exact B]. intros t Ht. apply A. apply HA. exact Ht. Qed.
+
+Lemma tree_guard_ok_spec c l f s :
+  tree_guard c l s = Ok tt -> fst c <> KTree -> decl_ok c l f s.
+Proof.
+  unfold tree_guard. intros H Hc. destruct (kind_eqb (fst c) KTree) eqn:E; [apply kind_eqb_eq in E; contradiction|].
+  destruct (find_owning_tree l s) as [[t|]|x|x] eqn:Eo; cbn [bind] in H; try discriminate.
+  split; [|intros E'; contradiction]. intros t Ht Hp. rewrite (find_owning_tree_none_spec l s t Eo Ht) in Hp. discriminate.
+Qed.
 
 Lemma In_insert_str x y l : In x (insert_str y l) -> x = y \/ In x l.
 Proof.
@@ -54,15 +111,33 @@ Context {hh : bool}.
 (* ------------------------------------------------------------------------------------------ *)
 (* _declare_file with the owning-tree guard                                                    *)
 (* ------------------------------------------------------------------------------------------ *)
-Lemma declare_file_TT c l f s :
-  Inv hh s -> (fst c = KTree -> f = FUnconfirmed /\ is_prefix (snd c) l = true) ->
-  wpg false (declare_file c l f s) (TT s).
+Lemma declare_file_W c l f s :
+  Inv hh s -> decl_ok c l f s -> wpg false (declare_file c l f s) (W s).
 Proof.
-  intros HI Htree. unfold declare_file.
+  intros HI [Hg Htree]. unfold declare_file.
   assert (Hc : (f = FUnconfirmed \/ f = FPlanned \/ f = FVolatile) ->
-               wpg false (create (KFile, l) (Some c) (InitFile f) s) (TT s)).
-  { intros Hf. apply (@create_TT hh); [exact HI | split; [reflexivity | destruct Hf as [->|[->| ->]]; discriminate]|].
-    intros t Hc _. inversion Hc; subst c. destruct (Htree eq_refl) as [-> Hp]. split; [reflexivity | exact Hp]. }
+               wpg false (create (KFile, l) (Some c) (InitFile f) s) (W s)).
+  { intros Hf. apply (@create_W hh); [exact HI | split; [reflexivity | destruct Hf as [->|[->| ->]]; discriminate]|].
+    intros c0 Hc _. inversion Hc; subst c0. split; [exact Hg|].
+    intros t E. subst c. destruct (Htree eq_refl) as [-> Hp]. split; [reflexivity | exact Hp]. }
+  destruct f; try exact I; apply wpg_bind; (eapply wpg_weaken; [apply Hc; auto|]); intros s1 H1; cbn [wpg]; try exact H1.
+  destruct (attached_step_sinks l s1); cbn; [exact H1 | exact I].
+Qed.
+
+Lemma declare_file_cre c l f s :
+  Inv hh s ->
+  wpg false (declare_file c l f s)
+      (fun s' => forall x c0, x <> (KFile, l) -> creator_of x s' = Some c0 -> creator_of x s = Some c0).
+Proof.
+  intros HI. unfold declare_file.
+  assert (Hc : (f = FUnconfirmed \/ f = FPlanned \/ f = FVolatile) ->
+               wpg false (create (KFile, l) (Some c) (InitFile f) s)
+                   (fun s' => forall x c0, x <> (KFile, l) -> creator_of x s' = Some c0 -> creator_of x s = Some c0)).
+  { intros Hf. eapply wpg_weaken.
+    - apply (@create_struct hh); [exact HI | split; [reflexivity | destruct Hf as [->|[->| ->]]; discriminate]].
+    - intros s' [P1 _] x c0 Hx H. rewrite creator_of_findn in *.
+      destruct (findn x (nodes s')) as [n'|] eqn:Hn'; [|discriminate].
+      destruct (P1 _ _ Hx Hn') as [n0 [Hn0 [Hc|Hc]]]; rewrite Hn0; congruence. }
   destruct f; try exact I; apply wpg_bind; (eapply wpg_weaken; [apply Hc; auto|]); intros s1 H1; cbn [wpg]; try exact H1.
   destruct (attached_step_sinks l s1); cbn; [exact H1 | exact I].
 Qed.
@@ -74,23 +149,29 @@ Lemma declare_file_t_spec c l f s :
                  creator_of (KFile, l) s' = Some c /\
                  (exists st, fstate_of l s' = Some st /\ (st = f \/ out_state st = true)) /\
                  (creator_quiet (Some c) f s -> GG s s')) /\
-                 ((fst c = KTree -> f = FUnconfirmed /\ is_prefix (snd c) l = true) -> TT s s')).
+                 ((fst c = KTree -> decl_ok c l f s) -> W s s') /\
+                 (forall x c0, x <> (KFile, l) -> creator_of x s' = Some c0 -> creator_of x s = Some c0)).
 Proof.
   intros HI. unfold declare_file_t.
-  destruct f; try exact I; (destruct (tree_guard c l s) as [[]|t|t]; [|exact I|exact I]); cbn [bind];
-    (apply wpg_conj; [apply (@declare_file_spec hh); [exact HI | intros H; discriminate H]
-                     | apply wpg_imp; intros Htree; apply declare_file_TT; assumption]).
+  assert (Hd : tree_guard c l s = Ok tt -> (fst c = KTree -> decl_ok c l f s) -> decl_ok c l f s).
+  { intros Eg Htree. destruct (kind_eqb (fst c) KTree) eqn:E; [apply Htree; apply kind_eqb_eq; exact E|].
+    eapply tree_guard_ok_spec; [exact Eg | intros E'; apply kind_eqb_eq in E'; congruence]. }
+  destruct f; try exact I; (destruct (tree_guard c l s) as [[]|t|t] eqn:Eg; [|exact I|exact I]); cbn [bind];
+    (apply wpg_conj; [apply (@declare_file_spec hh); [exact HI | intros H; discriminate H]|]);
+    (apply wpg_conj; [|apply declare_file_cre; exact HI]);
+    apply wpg_imp; intros Htree; (apply declare_file_W; [exact HI | apply Hd; [reflexivity | exact Htree]]).
 Qed.
 
-Lemma static_declarer_prefix c l s d :
-  (fst c = KTree -> is_prefix (snd c) l = true) ->
-  static_declarer c l s = Ok d -> fst d = KTree -> is_prefix (snd d) l = true.
+Lemma static_declarer_ok c l s d :
+  (fst c = KTree -> decl_ok c l FUnconfirmed s) ->
+  static_declarer c l s = Ok d -> fst d = KTree -> decl_ok d l FUnconfirmed s.
 Proof.
   intros Hc. unfold static_declarer. destruct (kind_eqb (fst c) KTree) eqn:Ek.
   - intros H; inversion H; subst d. exact Hc.
   - destruct (find_owning_tree l s) as [[t|]|x|x] eqn:Eo; cbn [bind]; try discriminate.
-    + destruct (okey_eqb _ _); [|discriminate]. intros H; inversion H; subst d. intros _. cbn.
-      eapply find_owning_tree_prefix; exact Eo.
+    + destruct (okey_eqb _ _); [|discriminate]. intros H; inversion H; subst d. intros _. split.
+      * intros t0 H0 Hp. rewrite (find_owning_tree_unique l s t t0 Eo H0 Hp). reflexivity.
+      * intros _. split; [reflexivity|]. cbn. eapply find_owning_tree_prefix; exact Eo.
     + intros H; inversion H; subst d. intros E. apply kind_eqb_eq in E. congruence.
 Qed.
 
@@ -98,95 +179,100 @@ Lemma declare_static_files_t_spec c paths s :
   Inv hh s ->
   wpg false (declare_static_files_t c paths s)
       (fun s' => Inv hh s' /\ GG s s' /\ KI s s' /\
-                 ((fst c = KTree -> forall l, In l paths -> is_prefix (snd c) l = true) -> TT s s')).
+                 ((fst c = KTree -> forall l, In l paths -> decl_ok c l FUnconfirmed s) -> W s s')).
 Proof.
   intros HI. unfold declare_static_files_t. destruct (negb _); [exact I|].
-  set (HC := fst c = KTree -> forall l, In l paths -> is_prefix (snd c) l = true).
+  set (HC := fst c = KTree -> forall l, In l paths -> decl_ok c l FUnconfirmed s).
   apply wpg_bind. eapply wpg_weaken.
   { apply (wpg_foldM false _ (fun acc : list (key * str) => HC ->
-             forall dl, In dl acc -> fst (fst dl) = KTree -> is_prefix (snd (fst dl)) (snd dl) = true)).
+             forall dl, In dl acc -> fst (fst dl) = KTree -> decl_ok (fst dl) (snd dl) FUnconfirmed s)).
     - intros acc l Hl Hacc0. apply wpg_bind. apply wpg_of_ok. intros d Hd. apply wpg_bind.
       destruct (check_declaration_node_t d l 61 s) as [[]|x|x]; try exact I; cbn [wpg]; [|exact Hacc0].
       intros Hc. pose proof (Hacc0 Hc) as Hacc.
       intros dl Hin. apply in_app_or in Hin. destruct Hin as [Hin|[<-|[]]]; [apply Hacc; exact Hin|].
-      cbn [fst snd]. eapply static_declarer_prefix; [|exact Hd]. intros E. apply Hc; assumption.
+      cbn [fst snd]. eapply static_declarer_ok; [|exact Hd]. intros E. apply Hc; assumption.
     - intros _ dl []. }
   intros todo Htodo. cbn beta in Htodo.
-  apply (wpg_foldM false _ (fun s' => Inv hh s' /\ GG s s' /\ KI s s' /\ (HC -> TT s s'))).
+  apply (wpg_foldM false _ (fun s' => Inv hh s' /\ GG s s' /\ KI s s' /\ (HC -> W s s'))).
   - intros s1 dl Hdl [I1 [G1 [K1 T1']]]. eapply wpg_weaken.
     + apply declare_file_t_spec; exact I1.
-    + intros s2 [[I2 [N2 [_ [_ [_ G2]]]]] T2]. split; [exact I2|]. split; [|split].
+    + intros s2 [[I2 [N2 [_ [_ [_ G2]]]]] [T2 _]].
+      assert (K12 : KI s1 s2) by (eapply KI_NF; [apply fkey_not_tree | exact N2]).
+      split; [exact I2|]. split; [|split].
       * eapply GG_trans; [exact G1|]. apply G2. intros x _ Hx. congruence.
-      * eapply incl_tran; [exact K1 | apply (proj1 N2)].
-      * intros Hc. eapply TT_trans; [apply T1'; exact Hc|]. apply T2.
-        intros E. split; [reflexivity | apply (Htodo Hc dl Hdl E)].
-  - split; [exact HI|]. split; [apply GG_refl|]. split; [apply incl_refl | intros _; apply TT_refl].
+      * eapply KI_trans; eassumption.
+      * intros Hc. eapply W_trans; [apply T1'; exact Hc | | apply (proj2 K12)]. apply T2.
+        intros E. eapply decl_ok_ATF; [apply (proj2 K1) | apply (Htodo Hc dl Hdl E)].
+  - split; [exact HI|]. split; [apply GG_refl|]. split; [apply KI_refl | intros _; apply W_refl].
 Qed.
 
 (* ------------------------------------------------------------------------------------------ *)
 (* _resolve_supply_file, _supply_files                                                         *)
 (* ------------------------------------------------------------------------------------------ *)
-Lemma resolve_supply_file_TT step l rn s :
-  Inv hh s -> wpg false (resolve_supply_file step l rn s) (fun r => TT s (fst r)).
+Lemma resolve_supply_file_W step l rn s :
+  Inv hh s -> wpg false (resolve_supply_file step l rn s) (fun r => W s (fst r)).
 Proof.
   intros HI. unfold resolve_supply_file. apply wpg_bind.
-  assert (Hc : wpg false (create (KFile, l) None (InitFile FUndeclared) s) (TT s)).
-  { apply (@create_TT hh); [exact HI | split; reflexivity | intros t H; discriminate H]. }
-  assert (Hfin : forall s1, TT s s1 ->
+  assert (Hc : wpg false (create (KFile, l) None (InitFile FUndeclared) s) (W s)).
+  { apply (@create_W hh); [exact HI | split; reflexivity | intros c H; discriminate H]. }
+  assert (Hfin : forall s1, W s s1 ->
             wpg false (let isnew := negb (has_dep (KFile, l) (KStep, step) s1) in
-                       if negb isnew && rn then Usage 205 else Ok (s1, isnew)) (fun r => TT s (fst r))).
+                       if negb isnew && rn then Usage 205 else Ok (s1, isnew)) (fun r => W s (fst r))).
   { intros s1 H1. cbn zeta. destruct (negb (negb (has_dep (KFile, l) (KStep, step) s1)) && rn); cbn; auto. }
   destruct (find_node (KFile, l) s) as [n|].
   2:{ eapply wpg_weaken; [exact Hc | exact Hfin]. }
   destruct (ncre n); [|eapply wpg_weaken; [exact Hc | exact Hfin]].
-  destruct (fstate_of l s) as [[]|]; try exact I; cbn [wpg]; apply Hfin; apply TT_refl.
+  destruct (fstate_of l s) as [[]|]; try exact I; cbn [wpg]; apply Hfin; apply W_refl.
 Qed.
 
 Lemma resolve_supply_file_t_spec step l rn s :
   Inv hh s ->
   wpg false (resolve_supply_file_t step l rn s)
-      (fun r => Inv hh (fst r) /\ KI s (fst r) /\ In (KFile, l) (KL (nodes (fst r))) /\ GG s (fst r) /\ TT s (fst r)).
+      (fun r => Inv hh (fst r) /\ KI s (fst r) /\ In (KFile, l) (KL (nodes (fst r))) /\ GG s (fst r) /\ W s (fst r)).
 Proof.
   intros HI.
   assert (Hbase : wpg false (resolve_supply_file step l rn s)
-            (fun r => Inv hh (fst r) /\ KI s (fst r) /\ In (KFile, l) (KL (nodes (fst r))) /\ GG s (fst r) /\ TT s (fst r))).
-  { eapply wpg_weaken; [apply wpg_conj; [apply (@resolve_supply_file_spec hh); exact HI | apply resolve_supply_file_TT; exact HI]|].
-    intros r [[H1 [H2 [H3 H4]]] H5]. split; [exact H1|]. split; [apply (proj1 H2)|]. split; [assumption|]. split; assumption. }
+            (fun r => Inv hh (fst r) /\ KI s (fst r) /\ In (KFile, l) (KL (nodes (fst r))) /\ GG s (fst r) /\ W s (fst r))).
+  { eapply wpg_weaken; [apply wpg_conj; [apply (@resolve_supply_file_spec hh); exact HI | apply resolve_supply_file_W; exact HI]|].
+    intros r [[H1 [H2 [H3 H4]]] H5]. split; [exact H1|]. split; [apply (KI_NF [] _ _ (fun x H => False_ind _ H) H2)|].
+    split; [assumption|]. split; assumption. }
   unfold resolve_supply_file_t. destruct (is_detached (KFile, l) s) eqn:Hd; [|exact Hbase].
   apply wpg_bind. destruct (find_owning_tree l s) as [[t|]|x|x] eqn:Eo; try exact I; cbn [wpg]; [|exact Hbase].
   apply wpg_bind. eapply wpg_weaken.
   { apply wpg_conj.
     - apply (@create_spec hh); [exact HI | split; [reflexivity | discriminate] | intros H; discriminate H].
-    - apply (@create_TT hh); [exact HI | split; [reflexivity | discriminate]|].
-      intros t0 Ht _. inversion Ht; subst t0. split; [reflexivity|]. cbn. eapply find_owning_tree_prefix; exact Eo. }
+    - apply (@create_W hh); [exact HI | split; [reflexivity | discriminate]|].
+      intros c0 Ht _. inversion Ht; subst c0. split.
+      + intros t0 H0 Hp. rewrite (find_owning_tree_unique l s t t0 Eo H0 Hp). reflexivity.
+      + intros t0 E. inversion E; subst t0. split; [reflexivity|]. cbn. eapply find_owning_tree_prefix; exact Eo. }
   intros s1 [[H1 [H2 [H3 [_ [_ [_ [H7 _]]]]]]] HT]. cbn zeta.
   destruct (negb (negb (has_dep (KFile, l) (KStep, step) s1)) && rn); cbn; [exact I|].
-  split; [exact H1|]. split; [apply (proj1 H2)|]. split; [exact H3|]. split; [|exact HT].
+  split; [exact H1|]. split; [eapply KI_NF; [apply fkey_not_tree | exact H2]|]. split; [exact H3|]. split; [|exact HT].
   apply H7. intros f0 _ x Hx. discriminate.
 Qed.
 
 Lemma supply_files_t_spec step paths rn dyn s :
   Inv hh s -> In (KStep, step) (KL (nodes s)) ->
-  wpg false (supply_files_t step paths rn dyn s) (fun s' => Inv hh s' /\ KI s s' /\ GG s s' /\ TT s s').
+  wpg false (supply_files_t step paths rn dyn s) (fun s' => Inv hh s' /\ KI s s' /\ GG s s' /\ W s s').
 Proof.
   intros HI Hstep. unfold supply_files_t. apply wpg_bind.
   eapply wpg_weaken.
   { apply (wpg_foldM false _ (fun acc : st * list str =>
              Inv hh (fst acc) /\ KI s (fst acc) /\ (forall l, In l (snd acc) -> In (KFile, l) (KL (nodes (fst acc)))) /\
-             GG s (fst acc) /\ TT s (fst acc))).
+             GG s (fst acc) /\ W s (fst acc))).
     - intros acc l _ [H1 [H2 [H3 [H4 H5]]]]. apply wpg_bind.
       eapply wpg_weaken; [apply resolve_supply_file_t_spec; exact H1|].
-      intros r [R1 [R2 [R3 [R4 R5]]]]. cbn [wpg fst snd]. split; [exact R1|]. split; [eapply incl_tran; eassumption|].
-      split; [|split; [eapply GG_trans; eassumption | eapply TT_trans; eassumption]].
+      intros r [R1 [R2 [R3 [R4 R5]]]]. cbn [wpg fst snd]. split; [exact R1|]. split; [eapply KI_trans; eassumption|].
+      split; [|split; [eapply GG_trans; eassumption | eapply W_trans; [eassumption | eassumption | apply (proj2 R2)]]].
       intros l' Hl'. destruct (snd r).
-      + apply in_app_or in Hl'. destruct Hl' as [Hl'|[<-|[]]]; [|exact R3]. apply R2. apply H3. exact Hl'.
-      + apply R2. apply H3. exact Hl'.
-    - cbn. split; [exact HI|]. split; [apply incl_refl |]. split; [intros l []|]. split; [apply GG_refl | apply TT_refl]. }
+      + apply in_app_or in Hl'. destruct Hl' as [Hl'|[<-|[]]]; [|exact R3]. apply (proj1 R2). apply H3. exact Hl'.
+      + apply (proj1 R2). apply H3. exact Hl'.
+    - cbn. split; [exact HI|]. split; [apply KI_refl |]. split; [intros l []|]. split; [apply GG_refl | apply W_refl]. }
   intros [s1 news] [H1 [H2 [H3 [H4g H5]]]]. cbn [fst snd] in *.
-  assert (Hstep1 : In (KStep, step) (KL (nodes s1))) by (apply H2; exact Hstep).
+  assert (Hstep1 : In (KStep, step) (KL (nodes s1))) by (apply (proj1 H2); exact Hstep).
   assert (Hadd : (forall l, In l news -> ~ path (EL (deps s1)) (KStep, step) (KFile, l)) ->
             wpg false (foldM (fun s l => add_dep (KFile, l) (KStep, step) dyn s) news s1)
-                (fun s' => Inv hh s' /\ KI s s' /\ GG s s' /\ TT s s')).
+                (fun s' => Inv hh s' /\ KI s s' /\ GG s s' /\ W s s')).
   { intros Hnp. eapply wpg_weaken.
     - apply (wpg_foldM_rem false _ (fun rest s' =>
                (Inv hh s' /\ G3 s1 s') /\ (nodes s' = nodes s1 /\ files s' = files s1) /\ incl rest news /\
@@ -202,9 +288,9 @@ Proof.
           -- apply (I4 l'); [right; exact Hl' | exact Hp].
           -- apply (I4 l); [left; reflexivity | exact Hp].
       + split; [split; [exact H1 | apply G3_refl]|]. split; [split; reflexivity|]. split; [apply incl_refl | exact Hnp].
-    - intros s' [[J1 J1g] [[J2 J2f] _]]. split; [exact J1|]. split; [unfold KI; rewrite J2; exact H2|].
+    - intros s' [[J1 J1g] [[J2 J2f] _]]. split; [exact J1|]. split; [eapply KI_trans; [exact H2 | apply KI_nodes; exact J2]|].
       split; [eapply GG_trans; [exact H4g | apply G3_GG; exact J1g]|].
-      eapply TT_trans; [exact H5 | apply TT_nodes_files; assumption]. }
+      eapply W_trans; [exact H5 | apply W_nodes_files; assumption | apply ATF_nodes; exact J2]. }
   destruct news as [|l0 news'].
   - apply Hadd. intros l [].
   - destruct (would_cycle (KStep, step) (map (fun l => (KFile, l)) (l0 :: news')) s1) eqn:Ewc; [exact I|].
@@ -222,21 +308,23 @@ Lemma declare_fold_t_spec c f (after : str -> st -> res st) ls s :
                 wpg false (after l s1) (fun s2 => Inv hh s2 /\ nodes s2 = nodes s1 /\ GG s1 s2 /\ files s2 = files s1)) ->
   Inv hh s -> In c (KL (nodes s)) ->
   wpg false (foldM (fun s l => do s' <- declare_file_t c l f s; after l s') ls s)
-      (fun s' => Inv hh s' /\ KI s s' /\ (creator_quiet (Some c) f s -> GG s s') /\ TT s s').
+      (fun s' => Inv hh s' /\ KI s s' /\ (creator_quiet (Some c) f s -> GG s s') /\ W s s').
 Proof.
   intros Hct Hafter HI Hc.
-  apply (wpg_foldM false _ (fun s' => Inv hh s' /\ KI s s' /\ (creator_quiet (Some c) f s -> GG s s') /\ TT s s')).
+  apply (wpg_foldM false _ (fun s' => Inv hh s' /\ KI s s' /\ (creator_quiet (Some c) f s -> GG s s') /\ W s s')).
   - intros s' l _ [I1 [I2 [I1g I1t]]].
-    assert (Hc' : In c (KL (nodes s'))) by (apply I2; exact Hc).
+    assert (Hc' : In c (KL (nodes s'))) by (apply (proj1 I2); exact Hc).
     apply wpg_bind. eapply wpg_weaken; [apply declare_file_t_spec; exact I1|].
-    intros s1 [[J1 [J2 [J3 [J4 [J5 J6]]]]] J7]. specialize (J7 (fun E => False_ind _ (Hct E))). eapply wpg_weaken.
+    intros s1 [[J1 [J2 [J3 [J4 [J5 J6]]]]] [J7 _]]. specialize (J7 (fun E => False_ind _ (Hct E))).
+    assert (K12 : KI s' s1) by (eapply KI_NF; [apply fkey_not_tree | exact J2]). eapply wpg_weaken.
     + apply Hafter; [exact J1 | apply (proj1 J2); exact Hc' | exact J3 | exact J4 | exact J5].
     + intros s2 [K1 [K2 [K3 K4]]]. split; [exact K1|]. split; [|split].
-      * unfold KI. rewrite K2. eapply incl_tran; [exact I2 | apply (proj1 J2)].
+      * eapply KI_trans; [exact I2|]. eapply KI_trans; [exact K12 | apply KI_nodes; exact K2].
       * intros Hq. pose proof (I1g Hq) as G1.
         eapply GG_trans; [exact G1|]. eapply GG_trans; [|exact K3]. apply J6. eapply creator_quiet_GG; eassumption.
-      * eapply TT_trans; [exact I1t|]. eapply TT_trans; [exact J7 | apply TT_nodes_files; assumption].
-  - split; [exact HI|]. split; [apply incl_refl|]. split; [intros _; apply GG_refl | apply TT_refl].
+      * eapply W_trans; [exact I1t | | eapply ATF_trans; [apply (proj2 K12) | apply ATF_nodes; exact K2]].
+        eapply W_trans; [exact J7 | apply W_nodes_files; assumption | apply ATF_nodes; exact K2].
+  - split; [exact HI|]. split; [apply KI_refl|]. split; [intros _; apply GG_refl | apply W_refl].
 Qed.
 
 (* ------------------------------------------------------------------------------------------ *)
@@ -244,7 +332,7 @@ Qed.
 (* ------------------------------------------------------------------------------------------ *)
 Lemma define_step_new_t_spec creator label inp env out vol nd s :
   Inv hh s ->
-  wpg false (define_step_new_t creator label inp env out vol nd s) (fun s' => Inv hh s' /\ GG s s' /\ TT s s').
+  wpg false (define_step_new_t creator label inp env out vol nd s) (fun s' => Inv hh s' /\ GG s s' /\ W s s').
 Proof.
   intros HI. unfold define_step_new_t. set (k := (KStep, label)).
   apply wpg_bind. eapply wpg_weaken; [apply (@phrase_fold_spec hh); exact HI|]. intros u1 _.
@@ -253,13 +341,13 @@ Proof.
   apply wpg_bind. eapply wpg_weaken.
   { apply wpg_conj.
     - apply (@create_spec hh); [exact HI | reflexivity | intros Hs; discriminate Hs].
-    - apply (@create_TT hh); [exact HI | reflexivity | intros t0 _ Hk; discriminate Hk]. }
+    - apply (@create_W hh); [exact HI | reflexivity | intros c0 _ Hk; discriminate Hk]. }
   intros s1 [[I1 [NF1 [K1 [_ [_ [_ [G1 P1]]]]]]] T01].
   assert (G01 : GG s s1). { apply G1. intros f Hf. discriminate. }
   assert (Hp1 : sstate_of label s1 = Some SPending) by (apply (P1 nd); reflexivity).
   apply wpg_bind. eapply wpg_weaken; [apply supply_files_t_spec; [exact I1 | exact K1]|].
   intros s2 [I2 [NF2 [G12 T12]]].
-  assert (K2 : In k (KL (nodes s2))) by (apply NF2; exact K1).
+  assert (K2 : In k (KL (nodes s2))) by (apply (proj1 NF2); exact K1).
   destruct (@fold_add_env_inv hh label false true env s2 I2 K2) as [I3 N3].
   pose proof (fold_add_env_G3 label false true env s2) as G23.
   pose proof (fold_add_env_files label false true env s2) as F23.
@@ -285,17 +373,21 @@ Proof.
   intros s4 [I4 [NF4 [G34 T34]]]. specialize (G34 (Hq3 FPlanned)).
   eapply wpg_weaken.
   { apply (declare_fold_t_spec k FVolatile (fun l s => add_output_edge label l false s) vol s4);
-      [discriminate | apply Hafter; auto | exact I4 | apply NF4; exact K3]. }
-  intros s5 [I5 [_ [G45 T45]]]. split; [exact I5|]. split.
+      [discriminate | apply Hafter; auto | exact I4 | apply (proj1 NF4); exact K3]. }
+  intros s5 [I5 [NF5 [G45 T45]]]. split; [exact I5|]. split.
   - eapply GG_trans; [exact G03|]. eapply GG_trans; [exact G34|]. apply G45.
     intros x _ _ Hv. exfalso. apply Hv. reflexivity.
-  - eapply TT_trans; [exact T01|]. eapply TT_trans; [exact T12|].
-    eapply TT_trans; [apply (TT_nodes_files s2 s3 N3 F23)|]. eapply TT_trans; eassumption.
+  - assert (A23 : ATF s2 s3) by (apply ATF_nodes; exact N3).
+    assert (W03 : W s s3).
+    { eapply W_trans; [exact T01 | | eapply ATF_trans; [apply (proj2 NF2) | exact A23]].
+      eapply W_trans; [exact T12 | apply (W_nodes_files s2 s3 N3 F23) | exact A23]. }
+    eapply W_trans; [exact W03 | | eapply ATF_trans; [apply (proj2 NF4) | apply (proj2 NF5)]].
+    eapply W_trans; [exact T34 | exact T45 | apply (proj2 NF5)].
 Qed.
 
 Lemma define_step_t_spec creator label inp env out vol nd s :
   Inv hh s ->
-  wpg false (define_step_t creator label inp env out vol nd s) (fun s' => Inv hh s' /\ GG s s' /\ TT s s').
+  wpg false (define_step_t creator label inp env out vol nd s) (fun s' => Inv hh s' /\ GG s s' /\ W s s').
 Proof.
   intros HI. unfold define_step_t. set (k := (KStep, label)).
   destruct (is_some (find_node creator s)) eqn:Ec; cbn [negb]; [|exact I].
@@ -311,8 +403,8 @@ Proof.
     - apply (@node_reattach_spec hh); [exact HI | reflexivity | intros Hs; discriminate Hs].
     - apply (@node_reattach_G3 hh); [exact HI | reflexivity]. }
   intros s1 [[I1 [NO1 _]] G01].
-  assert (T01 : TT s s1).
-  { apply TT_cre_files; [apply (g3_cre _ _ G01)|]. destruct NO1 as [_ [E _]]. exact E. }
+  assert (T01 : W s s1).
+  { apply W_cre_files; [apply (g3_cre _ _ G01)|]. destruct NO1 as [_ [E _]]. exact E. }
   set (g := fun r : srow => mkS (sl r) (sst r) nd (sdef r) (sdc r) 0).
   destruct (@upd_step_inv hh label g s1 I1) as [I2 SO2]; [reflexivity | |].
   { intros r Hr _. pose proof (inv_sw _ I1 r Hr) as Hok. unfold sw_ok_b, g in *. cbn [sdef sst shold].
@@ -320,7 +412,7 @@ Proof.
   assert (G12 : G3 s1 (upd_step label g s1)). { apply upd_step_G3; [reflexivity | intros r; left; reflexivity]. }
   fold g. set (s2 := upd_step label g s1) in *.
   assert (G02 : GG s s2). { apply G3_GG. eapply G3_trans; eassumption. }
-  assert (T02 : TT s s2). { eapply TT_trans; [exact T01 | apply TT_nodes_files; reflexivity]. }
+  assert (T02 : W s s2). { eapply W_trans; [exact T01 | apply W_nodes_files; reflexivity | apply ATF_nodes; reflexivity]. }
   destruct (sstate_of label s2) as [st0|] eqn:Hss; [|cbn; split; [|split]; assumption].
   destruct st0; try (cbn; split; [|split]; assumption).
   eapply wpg_weaken.
@@ -330,7 +422,8 @@ Proof.
     + apply mark_step_pending_nodes.
     + apply mark_step_pending_FT.
   - intros s3 [[[[I3 _] G23] N23] F23]. split; [exact I3|]. split; [eapply GG_trans; eassumption|].
-    eapply TT_trans; [exact T02|]. apply TT_ND_FT; [apply ND_nodes; exact N23 | exact F23 | apply (Inv_Rows hh); exact I3].
+    eapply W_trans; [exact T02 | | apply ATF_nodes; exact N23].
+    apply W_ND_FT; [apply ND_nodes; exact N23 | exact F23 | apply (Inv_Rows hh); exact I3].
 Qed.
 
 (* ------------------------------------------------------------------------------------------ *)
@@ -339,14 +432,14 @@ Qed.
 Lemma amend_step_t_spec label inp env out vol s :
   Inv hh s ->
   wpg false (amend_step_t label inp env out vol s)
-      (fun s' => Inv hh s' /\ (sstate_of label s <> Some SSucceeded -> GG s s') /\ TT s s').
+      (fun s' => Inv hh s' /\ (sstate_of label s <> Some SSucceeded -> GG s s') /\ W s s' /\ KI s s').
 Proof.
   intros HI. unfold amend_step_t. set (k := (KStep, label)).
   destruct (is_some (find_node k s) && is_some (find_step label s)) eqn:Eg; cbn [negb]; [|exact I].
   apply andb_true_iff in Eg. destruct Eg as [Ek _]. apply is_some_true in Ek. apply find_node_KL in Ek.
   apply wpg_bind. eapply wpg_weaken; [apply supply_files_t_spec; [exact HI | exact Ek]|].
   intros s1 [I1 [NF1 [G01 T01]]].
-  assert (K1 : In k (KL (nodes s1))) by (apply NF1; exact Ek).
+  assert (K1 : In k (KL (nodes s1))) by (apply (proj1 NF1); exact Ek).
   destruct (@fold_add_env_inv hh label true false env s1 I1 K1) as [I2 N2].
   pose proof (fold_add_env_G3 label true false env s1) as G12.
   pose proof (fold_add_env_files label true false env s1) as F12.
@@ -374,14 +467,19 @@ Proof.
   intros s3 [I3 [NF3 [G23 T23]]].
   eapply wpg_weaken.
   { apply (declare_fold_t_spec k FVolatile (fun l s => add_output_edge label l true s) vol' s3);
-      [discriminate | apply Hafter; auto | exact I3 | apply NF3; exact K2]. }
-  intros s4 [I4 [_ [G34 T34]]]. split; [exact I4|]. split.
+      [discriminate | apply Hafter; auto | exact I3 | apply (proj1 NF3); exact K2]. }
+  intros s4 [I4 [NF4 [G34 T34]]]. split; [exact I4|].
+  assert (K12 : KI s1 s2) by (apply KI_nodes; exact N2).
+  split; [|split].
   - intros Hns.
     assert (Hq2 : creator_quiet (Some k) FPlanned s2).
     { intros x Hx _ _. inversion Hx; subst x. eapply not_succ_GG; eassumption. }
     eapply GG_trans; [exact G02|]. eapply GG_trans; [apply G23; exact Hq2|]. apply G34.
     intros x _ _ Hv. exfalso. apply Hv. reflexivity.
-  - eapply TT_trans; [exact T01|]. eapply TT_trans; [apply (TT_nodes_files s1 s2 N2 F12)|]. eapply TT_trans; eassumption.
+  - assert (W02 : W s s2) by (eapply W_trans; [exact T01 | apply (W_nodes_files s1 s2 N2 F12) | apply (proj2 K12)]).
+    eapply W_trans; [exact W02 | | eapply ATF_trans; [apply (proj2 NF3) | apply (proj2 NF4)]].
+    eapply W_trans; [exact T23 | exact T34 | apply (proj2 NF4)].
+  - eapply KI_trans; [exact NF1|]. eapply KI_trans; [exact K12|]. eapply KI_trans; eassumption.
 Qed.
 
 (* ------------------------------------------------------------------------------------------ *)
@@ -403,11 +501,11 @@ Qed.
 Lemma create_tree_spec p c s :
   Inv hh s ->
   wpg false (create (KTree, p) (Some c) InitTree s)
-      (fun s1 => Inv hh s1 /\ NPost (KTree, p) (Some c) (cdet_of (Some c) s) s s1 /\ GG s s1 /\ TT s s1).
+      (fun s1 => Inv hh s1 /\ NPost (KTree, p) (Some c) (cdet_of (Some c) s) s s1 /\ GG s s1 /\ W s s1).
 Proof.
   intros HI. eapply wpg_weaken.
   - apply wpg_conj; [apply create_tree_spec0; exact HI|].
-    apply (@create_TT hh (KTree, p) (Some c) InitTree s HI); [reflexivity | intros t0 _ Hk; discriminate Hk].
+    apply (@create_W hh (KTree, p) (Some c) InitTree s HI); [reflexivity | intros c0 _ Hk; discriminate Hk].
   - intros s1 [[A [B C]] D]. auto.
 Qed.
 
@@ -425,9 +523,12 @@ Lemma retarget_inv x c' s n cn :
   findn x (nodes s) = Some n -> ndet n = false ->
   findn c' (nodes s) = Some cn -> ndet cn = false ->
   is_static_fstate (snd x) s = true -> is_prefix (snd c') (snd x) = true ->
-  Inv hh (upd_node x (retarget c') s) /\ GG s (upd_node x (retarget c') s) /\ TT s (upd_node x (retarget c') s).
+  (forall t, AT s t -> is_prefix t (snd x) = true -> c' = (KTree, t)) ->
+  Inv hh (upd_node x (retarget c') s) /\ GG s (upd_node x (retarget c') s) /\ W s (upd_node x (retarget c') s) /\
+  (forall y, findn y (nodes (upd_node x (retarget c') s)) =
+             if key_eqb y x then Some (retarget c' n) else findn y (nodes s)).
 Proof.
-  intros HI Hx Hc' Hn Hdn Hcn Hdc Hst Hpre.
+  intros HI Hx Hc' Hn Hdn Hcn Hdc Hst Hpre Hguard.
   pose proof (inv_nw _ HI) as HW.
   set (s' := upd_node x (retarget c') s).
   assert (Hns : nodes s' = updn x (retarget c') (nodes s)) by reflexivity.
@@ -442,7 +543,6 @@ Proof.
     assert (Hl : local_ok (nodes s) m). { apply (nw_local _ HW); [exact Hin | rewrite Hk; exact Hy]. }
     unfold local_ok in Hl. rewrite Hc in Hl. destruct Hl as [_ [Hkind _]]. rewrite E, Hx in Hkind.
     destruct (fst (nk m)); discriminate. }
-  assert (Hxs : x = (KFile, snd x)). { destruct x as [xk xl]. cbn in Hx. subst xk. reflexivity. }
   assert (HW' : NWl (nodes s')).
   { apply (NW_intro_findn (nodes s)); [exact HW | rewrite Hns; apply map_nk_updn; reflexivity | | |].
     - rewrite Hff. apply key_eqb_neq in Hxr. rewrite key_eqb_sym, Hxr. apply (nw_root _ HW).
@@ -467,7 +567,7 @@ Proof.
         rewrite <- (findn_key _ _ _ Hcn). apply (nw_reach _ HW); [apply (findn_In _ _ _ Hcn) | exact Hdc].
       + apply key_eqb_neq in E. apply Hfr; [|exact E]. rewrite <- (findn_key _ _ _ Hy).
         apply (nw_reach _ HW); [apply (findn_In _ _ _ Hy) | exact Hdy]. }
-  split.
+  split; [|split; [|split; [split|exact Hff]]].
   - apply (@Inv_nodes_change hh s s' HI HW'); try reflexivity.
     + unfold KL. rewrite Hns. apply map_nk_updn. reflexivity.
     + apply (rw_hnodup _ _ _ _ _ (inv_rw _ HI)).
@@ -485,17 +585,21 @@ Proof.
         destruct (inv_oe _ HI d l f Hd Hsrc Hsnk n c0 Hn Hc0) as [_ [r [Hr Ho]]].
         destruct (static_not_out _ _ _ Hst Hr) as [H _]. congruence.
       * apply (inv_oe _ HI d l f Hd Hsrc Hsnk n' c Hn' Hc).
-  - split.
-    + constructor.
-      * intros l H. exact H.
-      * intros l H. exact H.
-      * intros l H. exact H.
-      * intros l f [A [B C]]. split; [exact A|]. split; [|exact C].
-        rewrite creator_of_findn in *. rewrite Hff in B. destruct (key_eqb (KFile, f) x); [|exact B].
-        cbn in B. inversion B. subst c'. discriminate Hc'.
-    + intros f t H. rewrite creator_of_findn, Hff in H. destruct (key_eqb (KFile, f) x) eqn:E.
-      * left. apply key_eqb_eq in E. cbn in H. inversion H; subst c'. rewrite <- E in Hpre, Hst. cbn [snd] in *. split; [exact Hpre | exact Hst].
-      * right. split; [rewrite creator_of_findn; exact H | auto].
+  - constructor.
+    + intros l H. exact H.
+    + intros l H. exact H.
+    + intros l H. exact H.
+    + intros l f [A [B C]]. split; [exact A|]. split; [|exact C].
+      rewrite creator_of_findn in *. rewrite Hff in B. destruct (key_eqb (KFile, f) x); [|exact B].
+      cbn in B. inversion B. subst c'. discriminate Hc'.
+  - intros f t H. rewrite creator_of_findn, Hff in H. destruct (key_eqb (KFile, f) x) eqn:E.
+    + left. apply key_eqb_eq in E. cbn in H. inversion H; subst c'. rewrite <- E in Hpre, Hst. cbn [snd] in *. split; [exact Hpre | exact Hst].
+    + right. split; [rewrite creator_of_findn; exact H | auto].
+  - intros f c H. rewrite creator_of_findn, Hff in H. destruct (key_eqb (KFile, f) x) eqn:E.
+    + right. apply key_eqb_eq in E. cbn in H. inversion H; subst c. intros t Ht Hp. apply Hguard; [|rewrite <- E; exact Hp].
+      unfold AT in *. rewrite is_detached_findn in *. rewrite Hff in Ht.
+      destruct (key_eqb (KTree, t) x) eqn:E2; [apply key_eqb_eq in E2; rewrite <- E2 in Hx; discriminate | exact Ht].
+    + left. rewrite creator_of_findn. exact H.
 Qed.
 
 Definition handover (c' : key) (under : list node) (s : st) : st :=
@@ -505,51 +609,152 @@ Lemma handover_spec c' (under : list node) : forall s,
   Inv hh s -> fst c' = KTree ->
   (forall n, In n under -> fst (nk n) = KFile /\ is_detached (nk n) s = false /\
                            is_static_fstate (snd (nk n)) s = true /\ is_detached c' s = false /\
-                           is_prefix (snd c') (snd (nk n)) = true) ->
+                           is_prefix (snd c') (snd (nk n)) = true /\
+                           (forall t, AT s t -> is_prefix t (snd (nk n)) = true -> c' = (KTree, t))) ->
   Inv hh (handover c' under s) /\ GG s (handover c' under s) /\ KL (nodes (handover c' under s)) = KL (nodes s) /\
-  TT s (handover c' under s).
+  W s (handover c' under s) /\
+  (forall y, is_detached y (handover c' under s) = is_detached y s) /\
+  (forall n, In n under -> creator_of (nk n) (handover c' under s) = Some c') /\
+  (forall x, creator_of x (handover c' under s) = creator_of x s \/
+             (creator_of x (handover c' under s) = Some c' /\ exists n, In n under /\ nk n = x)).
 Proof.
   unfold handover. induction under as [|n under IH]; intros s HI Hc' Hall; cbn [fold_left].
-  - split; [exact HI|]. split; [apply GG_refl|]. split; [reflexivity | apply TT_refl].
-  - destruct (Hall n (or_introl eq_refl)) as [A1 [A2 [A3 [A4 A5]]]].
+  - split; [exact HI|]. split; [apply GG_refl|]. split; [reflexivity|]. split; [apply W_refl|].
+    split; [reflexivity|]. split; [intros n []|]. intros x. left. reflexivity.
+  - destruct (Hall n (or_introl eq_refl)) as [A1 [A2 [A3 [A4 [A5 A6]]]]].
     rewrite is_detached_findn in A2, A4.
     destruct (findn (nk n) (nodes s)) as [m|] eqn:Hm; [|discriminate].
     destruct (findn c' (nodes s)) as [cn|] eqn:Hcn; [|discriminate].
-    destruct (retarget_inv (nk n) c' s m cn HI A1 Hc' Hm A2 Hcn A4 A3 A5) as [I1 [G1 T01]].
+    destruct (retarget_inv (nk n) c' s m cn HI A1 Hc' Hm A2 Hcn A4 A3 A5 A6) as [I1 [G1 [T01 Hff]]].
     set (s1 := upd_node (nk n) (retarget c') s) in *.
-    destruct (IH s1 I1 Hc') as [I2 [G2 [K2 T12]]].
-    { intros n' Hn'. destruct (Hall n' (or_intror Hn')) as [B1 [B2 [B3 [B4 B5]]]]. split; [exact B1|].
-      assert (Hd : forall y, is_detached y s1 = is_detached y s).
-      { intros y. rewrite !is_detached_findn. unfold s1. rewrite nodes_upd_node, findn_updn; [|reflexivity].
-        destruct (key_eqb y (nk n)); [|reflexivity]. destruct (findn y (nodes s)); reflexivity. }
-      rewrite !Hd. split; [exact B2|]. split; [exact B3|]. split; [exact B4 | exact B5]. }
-    split; [exact I2|]. split; [eapply GG_trans; eassumption|]. split; [|eapply TT_trans; eassumption].
-    rewrite K2. unfold s1, KL. rewrite nodes_upd_node. apply map_nk_updn. reflexivity.
+    assert (Hd : forall y, is_detached y s1 = is_detached y s).
+    { intros y. rewrite !is_detached_findn, Hff. destruct (key_eqb y (nk n)) eqn:E; [|reflexivity].
+      apply key_eqb_eq in E. subst y. rewrite Hm. reflexivity. }
+    assert (Hcr : forall x, creator_of x s1 = if key_eqb x (nk n) then Some c' else creator_of x s).
+    { intros x. rewrite !creator_of_findn, Hff. destruct (key_eqb x (nk n)); reflexivity. }
+    destruct (IH s1 I1 Hc') as [I2 [G2 [K2 [T12 [D2 [C2 F2]]]]]].
+    { intros n' Hn'. destruct (Hall n' (or_intror Hn')) as [B1 [B2 [B3 [B4 [B5 B6]]]]]. split; [exact B1|].
+      rewrite !Hd. split; [exact B2|]. split; [exact B3|]. split; [exact B4|]. split; [exact B5|].
+      intros t Ht. apply B6. unfold AT in *. rewrite <- Hd. exact Ht. }
+    split; [exact I2|]. split; [eapply GG_trans; eassumption|].
+    split; [rewrite K2; unfold s1, KL; rewrite nodes_upd_node; apply map_nk_updn; reflexivity|].
+    split; [eapply W_trans; [exact T01 | exact T12|]; intros t; unfold AT; rewrite D2; auto|].
+    split; [intros y; rewrite D2; apply Hd|]. split.
+    + intros n' [<-|Hn']; [|apply C2; exact Hn'].
+      destruct (F2 (nk n)) as [E|[E _]]; [|exact E]. rewrite E, Hcr, key_eqb_refl. reflexivity.
+    + intros x. destruct (F2 x) as [E|[E [n' [Hn' Hk]]]].
+      * rewrite E, Hcr. destruct (key_eqb x (nk n)) eqn:Ex; [|left; reflexivity].
+        right. split; [reflexivity|]. exists n. split; [left; reflexivity|]. apply key_eqb_eq in Ex. auto.
+      * right. split; [exact E|]. exists n'. split; [right; exact Hn' | exact Hk].
+Qed.
+
+(* adoption: declare_static_files with a tree as the creator over detached paths declares all of them *)
+Lemma existing_claim_detached l s : is_detached (KFile, l) s = true -> existing_claim l s = Ok None.
+Proof.
+  unfold existing_claim, is_detached. destruct (find_node (KFile, l) s) as [n|]; [|reflexivity].
+  intros Hd. rewrite Hd. destruct (find_file l s); reflexivity.
+Qed.
+
+Lemma adopt_todo c s : fst c = KTree -> forall ls acc,
+  (forall l, In l ls -> is_detached (KFile, l) s = true) ->
+  foldM (fun acc l => do d <- static_declarer c l s;
+                      do isnew <- check_declaration_node_t d l 61 s;
+                      Ok (if isnew : bool then acc ++ [(d, l)] else acc)) ls acc
+  = Ok (acc ++ map (fun l => (c, l)) ls).
+Proof.
+  intros Hc. induction ls as [|l ls IH]; intros acc Hd; cbn [foldM map].
+  - rewrite app_nil_r. reflexivity.
+  - assert (E1 : static_declarer c l s = Ok c).
+    { unfold static_declarer. rewrite Hc. reflexivity. }
+    assert (E2 : check_declaration_node_t c l 61 s = Ok true).
+    { unfold check_declaration_node_t. rewrite existing_claim_detached; [reflexivity|]. apply Hd. left. reflexivity. }
+    rewrite E1. cbn [bind]. rewrite E2. cbn [bind]. rewrite IH; [|intros l' Hl'; apply Hd; right; exact Hl'].
+    rewrite <- app_assoc. reflexivity.
+Qed.
+
+Lemma adopt_fold c : forall ls s, Inv hh s ->
+  wpg false (foldM (fun s (dl : key * str) => declare_file_t (fst dl) (snd dl) FUnconfirmed s) (map (fun l => (c, l)) ls) s)
+      (fun s' => (forall l, In l ls -> creator_of (KFile, l) s' = Some c \/ creator_of (KFile, l) s' = None) /\
+                 (forall f c0, creator_of (KFile, f) s' = Some c0 ->
+                    (c0 = c /\ In f ls) \/ creator_of (KFile, f) s = Some c0)).
+Proof.
+  induction ls as [|l ls IH]; intros s HI; cbn [map foldM].
+  - cbn. split; [intros l []|]. intros f c0 H. right. exact H.
+  - apply wpg_bind. cbn [fst snd]. eapply wpg_weaken; [apply declare_file_t_spec; exact HI|].
+    intros s1 [[I1 [_ [_ [J4 _]]]] [_ Fr]]. eapply wpg_weaken; [apply IH; exact I1|].
+    intros s' [A B]. split.
+    + intros l' [<-|Hl']; [|apply A; exact Hl'].
+      destruct (creator_of (KFile, l) s') as [c0|] eqn:E; [|right; reflexivity].
+      left. destruct (B l c0 E) as [[-> _]|H]; [reflexivity | congruence].
+    + intros f c0 H. destruct (B f c0 H) as [[-> Hin]|H1]; [left; split; [reflexivity | right; exact Hin]|].
+      destruct (str_eq_dec f l) as [->|Hne].
+      * left. split; [congruence | left; reflexivity].
+      * right. apply (Fr (KFile, f) c0); [intros E; inversion E; contradiction | exact H1].
+Qed.
+
+Lemma adopt_spec c ls s :
+  Inv hh s -> fst c = KTree -> (forall l, In l ls -> is_detached (KFile, l) s = true) ->
+  wpg false (declare_static_files_t c ls s)
+      (fun s' => (forall l, In l ls -> creator_of (KFile, l) s' = Some c \/ creator_of (KFile, l) s' = None) /\
+                 (forall f c0, creator_of (KFile, f) s' = Some c0 ->
+                    (c0 = c /\ In f ls) \/ creator_of (KFile, f) s = Some c0)).
+Proof.
+  intros HI Hc Hd. unfold declare_static_files_t. destruct (negb _); [exact I|].
+  rewrite (adopt_todo c s Hc ls [] Hd). cbn [bind app]. apply adopt_fold. exact HI.
+Qed.
+
+Lemma In_sort_strs_rev x l : In x l -> In x (sort_strs l).
+Proof.
+  assert (Hins : forall y l0, In x (insert_str y l0) <-> x = y \/ In x l0).
+  { intros y l0. induction l0 as [|z l0 IH]; cbn; [intuition|].
+    destruct (lex_lt y z); cbn; [intuition|]. rewrite IH. intuition. }
+  induction l as [|y l IH]; cbn; [auto|]. intros [->|H]; apply Hins; auto.
 Qed.
 
 Lemma register_static_tree_spec c p s :
-  Inv hh s -> wpg false (register_static_tree c p s) (fun s' => Inv hh s' /\ GG s s' /\ TT s s').
+  Inv hh s ->
+  wpg false (register_static_tree c p s)
+      (fun s' => Inv hh s' /\ GG s s' /\ W s s' /\ (T2p s -> T3p s -> T2p s' /\ T3p s')).
 Proof.
   intros HI. pose proof (inv_nw _ HI) as HW. unfold register_static_tree.
   destruct (negb (is_some (find_node c s))); [exact I|].
-  apply wpg_bind. destruct (find_owning_tree p s) as [[t|]|x|x]; try exact I; cbn [wpg].
-  - destruct (okey_eqb _ _); [cbn; split; [exact HI|]; split; [apply GG_refl | apply TT_refl]|]. destruct (str_eqb t p); exact I.
-  - destruct (existsb _ (nodes s)); [exact I|]. cbn zeta.
+  apply wpg_bind. destruct (find_owning_tree p s) as [[t|]|x|x] eqn:Eo; try exact I; cbn [wpg].
+  - destruct (okey_eqb _ _); [cbn; split; [exact HI|]; split; [apply GG_refl|]; split; [apply W_refl | auto]|].
+    destruct (str_eqb t p); exact I.
+  - destruct (existsb _ (nodes s)) eqn:Ex; [exact I|]. cbn zeta.
     set (under := file_nodes_under p false s).
     destruct (existsb (fun n => negb (is_static_fstate (snd (nk n)) s)) under) eqn:E1; [exact I|].
     destruct (existsb (fun n => negb (okey_eqb (ncre n) (Some c))) under) eqn:E2; [exact I|].
+    (* no attached tree of s is comparable with p *)
+    assert (Ga : forall t, AT s t -> is_prefix t p = false) by (intros t; apply find_owning_tree_none_spec; exact Eo).
+    assert (Gb : forall t, AT s t -> is_prefix p t = false).
+    { intros t Ht. unfold AT in Ht. rewrite is_detached_findn in Ht.
+      destruct (findn (KTree, t) (nodes s)) as [n|] eqn:Hn; [|discriminate].
+      pose proof (findn_In _ _ _ Hn) as [Hin Hk]. rewrite existsb_false_iff in Ex. specialize (Ex n Hin).
+      rewrite Hk, Ht in Ex. cbn in Ex. exact Ex. }
+    assert (Gcmp : forall t f, AT s t -> is_prefix t f = true -> is_prefix p f = true -> False).
+    { intros t f Ht H1 H2. destruct (is_prefix_comparable t p f H1 H2) as [H|H];
+        [rewrite (Ga t Ht) in H | rewrite (Gb t Ht) in H]; discriminate. }
     apply wpg_bind. eapply wpg_weaken; [apply create_tree_spec; exact HI|].
     intros s1 [I1 [HP [G1 T01]]].
+    assert (AT1 : forall t, AT s1 t -> t = p \/ AT s t).
+    { intros t Ht. destruct (str_eq_dec t p) as [->|Hne]; [left; reflexivity|]. right. unfold AT in *.
+      destruct (is_detached (KTree, t) s) eqn:E; [|reflexivity].
+      rewrite (np_det _ _ _ _ _ HP (KTree, t)) in Ht; [discriminate | intros E'; inversion E'; contradiction | exact E]. }
+    assert (Hunder : forall n, In n under -> In n (nodes s) /\ fst (nk n) = KFile /\ ndet n = false /\
+                                              is_prefix p (snd (nk n)) = true).
+    { intros n Hn. unfold under, file_nodes_under in Hn. apply filter_In in Hn. destruct Hn as [Hin Hcond].
+      rewrite !andb_true_iff in Hcond. destruct Hcond as [[[C1 C2] C3] _]. apply kind_eqb_eq in C1.
+      split; [exact Hin|]. split; [exact C1|]. split; [destruct (ndet n); [discriminate | reflexivity] | exact C3]. }
     assert (Hall : forall n, In n under -> fst (nk n) = KFile /\ is_detached (nk n) s1 = false /\
                      is_static_fstate (snd (nk n)) s1 = true /\ is_detached (KTree, p) s1 = false /\
-                     is_prefix (snd (KTree, p)) (snd (nk n)) = true).
-    { intros n Hn. pose proof Hn as Hu. unfold under, file_nodes_under in Hn. apply filter_In in Hn. destruct Hn as [Hin Hcond].
-      rewrite !andb_true_iff in Hcond. destruct Hcond as [[[C1 C2] C3] _].
-      apply kind_eqb_eq in C1. assert (Hdn : ndet n = false) by (destruct (ndet n); [discriminate | reflexivity]).
+                     is_prefix (snd (KTree, p)) (snd (nk n)) = true /\
+                     (forall t, AT s1 t -> is_prefix t (snd (nk n)) = true -> (KTree, p) = (KTree, t))).
+    { intros n Hn. pose proof Hn as Hu. destruct (Hunder n Hn) as [Hin [C1 [Hdn C3]]].
       pose proof (In_findn _ _ (nw_nodup _ HW) Hin) as Hfn.
       assert (Hne : nk n <> (KTree, p)). { intros E. rewrite E in C1. discriminate. }
       pose proof (np_att _ _ _ _ _ HP _ _ Hne Hfn Hdn) as Hfn1.
-      split; [exact C1|]. split; [rewrite is_detached_findn, Hfn1; exact Hdn|]. split; [|split; [|exact C3]].
+      split; [exact C1|]. split; [rewrite is_detached_findn, Hfn1; exact Hdn|]. split; [|split; [|split; [exact C3|]]].
       - rewrite existsb_false_iff in E1. specialize (E1 n Hu). apply negb_false_iff in E1.
         unfold is_static_fstate, fstate_of, find_file in *. rewrite (np_files _ _ _ _ _ HP). exact E1.
       - rewrite is_detached_findn, (np_k _ _ _ _ _ HP). cbn [ndet cdet_of].
@@ -557,23 +762,88 @@ Proof.
         assert (Hl : local_ok (nodes s) n).
         { apply (nw_local _ HW); [exact Hin | intros E; rewrite E in C1; discriminate]. }
         unfold local_ok in Hl. rewrite E2 in Hl. destruct Hl as [_ [_ [cn [Hcn Hd]]]].
-        rewrite is_detached_findn, Hcn. congruence. }
-    destruct (handover_spec (KTree, p) under s1 I1 eq_refl Hall) as [I2 [G2 [K2 T12]]].
-    unfold handover, retarget in I2, G2, K2, T12.
+        rewrite is_detached_findn, Hcn. congruence.
+      - intros t Ht Hp. destruct (AT1 t Ht) as [->|Hs]; [reflexivity|]. exfalso. exact (Gcmp t _ Hs Hp C3). }
+    destruct (handover_spec (KTree, p) under s1 I1 eq_refl Hall) as [I2 [G2 [K2 [T12 [D2 [C2 F2]]]]]].
+    unfold handover, retarget in I2, G2, K2, T12, D2, C2, F2.
+    set (s2 := fold_left _ under s1) in *.
+    set (matching := sort_strs (map (fun n => snd (nk n)) (file_nodes_under p true s2))).
+    assert (Hmatch : forall l, In l matching -> is_detached (KFile, l) s2 = true /\ is_prefix p l = true).
+    { intros l Hl. apply In_sort_strs in Hl. apply in_map_iff in Hl. destruct Hl as [n [Hn1 Hn2]].
+      unfold file_nodes_under in Hn2. apply filter_In in Hn2. destruct Hn2 as [Hin Hc].
+      rewrite !andb_true_iff in Hc. destruct Hc as [[[C1 C2'] C3] _]. apply kind_eqb_eq in C1. subst l.
+      assert (E : nk n = (KFile, snd (nk n))) by (destruct (nk n) as [a b]; cbn in *; subst; reflexivity).
+      split; [|exact C3]. rewrite <- E, is_detached_findn, (In_findn _ _ (nw_nodup _ (inv_nw _ I2)) Hin).
+      destruct (ndet n); [reflexivity | discriminate]. }
+    assert (AT2 : forall t, AT s2 t -> t = p \/ AT s t).
+    { intros t Ht. apply AT1. unfold AT in *. rewrite <- D2. exact Ht. }
     eapply wpg_weaken.
-    { apply declare_static_files_t_spec; exact I2. }
-    intros s3 [I3 [G3' [_ T23]]]. split; [exact I3|]. split.
-    + eapply GG_trans; [exact G1|]. eapply GG_trans; [exact G2 | exact G3'].
-    + eapply TT_trans; [exact T01|]. eapply TT_trans; [exact T12|]. apply T23.
-      intros _ l Hl. apply In_sort_strs in Hl.
-      apply in_map_iff in Hl. destruct Hl as [n [Hn1 Hn2]]. unfold file_nodes_under in Hn2. apply filter_In in Hn2.
-      destruct Hn2 as [_ Hc]. rewrite !andb_true_iff in Hc. subst l. cbn [snd]. tauto.
+    { apply wpg_conj; [apply declare_static_files_t_spec; exact I2|].
+      apply adopt_spec; [exact I2 | reflexivity | intros l Hl; apply (Hmatch l Hl)]. }
+    intros s3 [[I3 [G3' [K23 T23]]] [A3 B3]].
+    assert (W23 : W s2 s3).
+    { apply T23. intros _ l Hl. destruct (Hmatch l Hl) as [_ Hp]. split; [|intros _; split; [reflexivity | exact Hp]].
+      intros t Ht Hpt. destruct (AT2 t Ht) as [->|Hs]; [reflexivity|]. exfalso. exact (Gcmp t l Hs Hpt Hp). }
+    split; [exact I3|]. split; [eapply GG_trans; [exact G1|]; eapply GG_trans; [exact G2 | exact G3']|].
+    split.
+    { eapply W_trans; [|exact W23 | apply (proj2 K23)].
+      eapply W_trans; [exact T01 | exact T12|]. intros t. unfold AT. rewrite D2. auto. }
+    intros H2 H3.
+    assert (AT3 : forall t, AT s3 t -> t = p \/ AT s t) by (intros t Ht; apply AT2; apply (proj2 K23); exact Ht).
+    assert (Hnp : ~ AT s p). { intros H. pose proof (Ga p H) as E. rewrite is_prefix_refl in E. discriminate. }
+    split.
+    + intros t1 t2 H1 H2' Hp. destruct (AT3 t1 H1) as [->|S1], (AT3 t2 H2') as [->|S2]; try reflexivity.
+      * rewrite (Gb t2 S2) in Hp. discriminate.
+      * rewrite (Ga t1 S1) in Hp. discriminate.
+      * apply H2; assumption.
+    + (* creator tracking *)
+      assert (Htrack : forall f c0, creator_of (KFile, f) s3 = Some c0 ->
+                (c0 = (KTree, p) /\ is_prefix p f = true) \/ creator_of (KFile, f) s = Some c0).
+      { intros f c0 H. destruct (B3 f c0 H) as [[-> Hin]|H']; [left; split; [reflexivity | apply (Hmatch f Hin)]|].
+        destruct (F2 (KFile, f)) as [E|[E [n [Hn Hk]]]].
+        - right. rewrite E in H'. rewrite creator_of_findn in *.
+          destruct (findn (KFile, f) (nodes s1)) as [n1|] eqn:Hn1; [|discriminate].
+          destruct (np_cre _ _ _ _ _ HP (KFile, f) n1 ltac:(discriminate) Hn1) as [n0 [Hn0 [Hc|Hc]]]; rewrite Hn0; congruence.
+        - left. rewrite E in H'. inversion H'; subst c0. split; [reflexivity|].
+          destruct (Hunder n Hn) as [_ [_ [_ Hp]]]. rewrite Hk in Hp. exact Hp. }
+      (* every file under p with a creator belongs to p *)
+      assert (Hcomplete : forall f c0, creator_of (KFile, f) s3 = Some c0 -> is_prefix p f = true -> AT s3 p ->
+                c0 = (KTree, p)).
+      { intros f c0 H Hp Hat. destruct (B3 f c0 H) as [[-> _]|H']; [reflexivity|].
+        destruct (is_detached (KFile, f) s2) eqn:Ed.
+        - (* detached after the hand-over: adopted *)
+          assert (Hin : In f matching).
+          { unfold matching. apply In_sort_strs_rev. apply in_map_iff.
+            rewrite is_detached_findn in Ed. rewrite creator_of_findn in H'.
+            destruct (findn (KFile, f) (nodes s2)) as [n|] eqn:Hn; [|discriminate].
+            pose proof (findn_In _ _ _ Hn) as [Hin Hk]. exists n. split; [rewrite Hk; reflexivity|].
+            unfold file_nodes_under. apply filter_In. split; [exact Hin|]. rewrite Hk, Ed. cbn.
+            rewrite Hp. cbn. apply is_some_true. apply find_file_FL. apply (rw_files _ _ _ _ _ (inv_rw _ I2)).
+            rewrite <- Hk. unfold KL. apply in_map. exact Hin. }
+          destruct (A3 f Hin) as [E|E]; congruence.
+        - (* attached: it was attached in s, hence handed over *)
+          assert (Hd1 : is_detached (KFile, f) s1 = false) by (rewrite <- D2; exact Ed).
+          assert (Hd0 : is_detached (KFile, f) s = false).
+          { destruct (is_detached (KFile, f) s) eqn:E; [|reflexivity].
+            rewrite (np_det _ _ _ _ _ HP (KFile, f)) in Hd1; [discriminate | discriminate | exact E]. }
+          rewrite is_detached_findn in Hd0. destruct (findn (KFile, f) (nodes s)) as [n|] eqn:Hn; [|discriminate].
+          pose proof (findn_In _ _ _ Hn) as [Hin Hk].
+          assert (Hu : In n under).
+          { unfold under, file_nodes_under. apply filter_In. split; [exact Hin|]. rewrite Hk, Hd0. cbn. rewrite Hp. cbn.
+            apply is_some_true. apply find_file_FL. apply (rw_files _ _ _ _ _ (inv_rw _ HI)).
+            rewrite <- Hk. unfold KL. apply in_map. exact Hin. }
+          pose proof (C2 n Hu) as E. rewrite Hk in E. congruence. }
+      intros f c0 t Hc Ht Hp. destruct (AT3 t Ht) as [->|Hs].
+      * apply (Hcomplete f c0 Hc Hp Ht).
+      * destruct (Htrack f c0 Hc) as [[-> Hpp]|H0]; [exfalso; exact (Gcmp t f Hs Hp Hpp)|].
+        apply (H3 f c0 t H0 Hs Hp).
 Qed.
 
 (* ------------------------------------------------------------------------------------------ *)
 (* delete_detached with the tree pre-step                                                      *)
 (* ------------------------------------------------------------------------------------------ *)
-Lemma delete_detached_t_spec s : Inv hh s -> wpg false (delete_detached_t s) (fun s' => Inv hh s' /\ GG s s' /\ TT s s').
+Lemma delete_detached_t_spec s :
+  Inv hh s -> wpg false (delete_detached_t s) (fun s' => Inv hh s' /\ GG s s' /\ W s s' /\ ATF s s').
 Proof.
   intros HI. unfold delete_detached_t. apply wpg_bind. eapply wpg_weaken.
   - apply wpg_conj; [|apply (foldM_ND (fun s k => node_detach k s)); intros; apply node_detach_NDw].
@@ -586,9 +856,10 @@ Proof.
     + apply wpg_conj; [apply wpg_conj; [apply wpg_conj|]|];
         [apply (@delete_detached_spec hh); exact I1 | apply delete_detached_GG | apply delete_detached_ND | apply delete_detached_FT].
     + intros s2 [[[I2 G2] N2] F2]. split; [exact I2|]. split; [eapply GG_trans; [apply G3_GG; exact G1 | exact G2]|].
-      eapply TT_trans.
-      * apply TT_cre_files; [apply ND_creator; exact N1|]. destruct NO1 as [_ [E _]]. exact E.
-      * apply TT_ND_FT; [exact N2 | exact F2 | apply (Inv_Rows hh); exact I2].
+      split; [|eapply ATF_trans; apply ATF_ND; eassumption].
+      eapply W_trans; [| |apply ATF_ND; exact N2].
+      * apply W_cre_files; [apply ND_creator; exact N1|]. destruct NO1 as [_ [E _]]. exact E.
+      * apply W_ND_FT; [exact N2 | exact F2 | apply (Inv_Rows hh); exact I2].
 Qed.
 
 End HH.
@@ -682,26 +953,33 @@ Qed.
 (* ------------------------------------------------------------------------------------------ *)
 (* T1: a file whose creator is a static tree lies under it and is STATIC                        *)
 (* ------------------------------------------------------------------------------------------ *)
-Lemma step_op_TT o s :
-  Inv false s -> declares_files o = false -> wpg false (step_op o s) (TT s).
+Lemma step_op_W o s :
+  Inv false s -> declares_files o = false -> wpg false (step_op o s) (fun s' => W s s' /\ ATF s s').
 Proof.
   intros HI Hd. eapply wpg_weaken.
   - apply wpg_conj; [apply wpg_conj|];
       [apply (step_op_inv false o s HI); intros H; discriminate H | apply step_op_ND; exact Hd | apply step_op_FT; exact Hd].
-  - intros s' [[I' N'] F']. apply TT_ND_FT; [exact N' | exact F' | apply (Inv_Rows false); exact I'].
+  - intros s' [[I' N'] F']. split; [|apply ATF_ND; exact N'].
+    apply W_ND_FT; [exact N' | exact F' | apply (Inv_Rows false); exact I'].
 Qed.
 
-Lemma step_op_t_TT o s :
-  Inv false s -> static_requester_b o = true -> wpg false (step_op_t o s) (TT s).
+Lemma declare_static_dom c paths s :
+  static_requester_b (OpBase (OpDeclareStatic c paths)) = true ->
+  fst c = KTree -> forall l, In l paths -> decl_ok c l FUnconfirmed s.
+Proof. intros Hdom E. cbn in Hdom. apply negb_true_iff in Hdom. apply kind_eqb_eq in E. congruence. Qed.
+
+Lemma step_op_t_W o s :
+  Inv false s -> static_requester_b o = true -> wpg false (step_op_t o s) (W s).
 Proof.
   intros HI Hdom. destruct o as [o|c p].
-  - destruct o; cbn [step_op_t]; try (apply (step_op_TT _ s HI); reflexivity).
+  - destruct o; cbn [step_op_t];
+      try (eapply wpg_weaken; [apply (step_op_W _ s HI); reflexivity | intros s' [H _]; exact H]).
     + eapply wpg_weaken; [apply (@declare_static_files_t_spec false); exact HI|]. intros s' [_ [_ [_ H]]]. apply H.
-      intros E. cbn in Hdom. apply negb_true_iff in Hdom. apply kind_eqb_eq in E. congruence.
+      apply declare_static_dom. exact Hdom.
     + eapply wpg_weaken; [apply (@define_step_t_spec false); exact HI|]. intros s' [_ [_ H]]. exact H.
-    + eapply wpg_weaken; [apply (@amend_step_t_spec false); exact HI|]. intros s' [_ [_ H]]. exact H.
-    + eapply wpg_weaken; [apply (@delete_detached_t_spec false); exact HI|]. intros s' [_ [_ H]]. exact H.
-  - cbn [step_op_t]. eapply wpg_weaken; [apply (@register_static_tree_spec false); exact HI|]. intros s' [_ [_ H]]. exact H.
+    + eapply wpg_weaken; [apply (@amend_step_t_spec false); exact HI|]. intros s' [_ [_ [H _]]]. exact H.
+    + eapply wpg_weaken; [apply (@delete_detached_t_spec false); exact HI|]. intros s' [_ [_ [H _]]]. exact H.
+  - cbn [step_op_t]. eapply wpg_weaken; [apply (@register_static_tree_spec false); exact HI|]. intros s' [_ [_ [H _]]]. exact H.
 Qed.
 
 Lemma inv_treefile_preserved s o :
@@ -712,8 +990,8 @@ Proof.
   apply inv_core_b_iff in Hc. apply inv_core_b_iff in Hc'.
   apply T1_reflect; [apply (nw_nodup _ (inv_nw _ Hc'))|].
   apply T1_reflect in HT; [|apply (nw_nodup _ (inv_nw _ Hc))].
-  unfold apply_op_t in *. pose proof (step_op_t_TT o s Hc Hdom) as Hw.
-  destruct (step_op_t o s); [eapply T1_TT; eassumption | exact HT | exact HT].
+  unfold apply_op_t in *. pose proof (step_op_t_W o s Hc Hdom) as Hw.
+  destruct (step_op_t o s); [eapply T1_TT; [exact HT | apply (proj1 Hw)] | exact HT | exact HT].
 Qed.
 
 Lemma inv_treefile_init cap : inv_treefile_b (init_st cap) = true.
@@ -726,4 +1004,77 @@ Proof.
   induction ops as [|o ops IH]; intros s Hc Hs Hp; cbn [all_prefixes_ok_t]; rewrite Hs; [reflexivity|].
   cbn in Hp. apply andb_true_iff in Hp. destruct Hp as [Hp1 Hp2]. cbn.
   apply IH; [apply inv_core_t_preserved; exact Hc | apply inv_treefile_preserved; assumption | exact Hp2].
+Qed.
+
+(* ------------------------------------------------------------------------------------------ *)
+(* T2 / T3 under the hypothesis that define_step re-attaches no static tree                    *)
+(* ------------------------------------------------------------------------------------------ *)
+Lemma own_step o s :
+  Inv false s -> T2p s -> T3p s -> static_requester_b o = true -> no_tree_reattached_b s o = true ->
+  wpg false (step_op_t o s) (fun s' => T2p s' /\ T3p s').
+Proof.
+  intros HI H2 H3 Hdom Hnr.
+  assert (Hfin : forall s', W s s' -> ATF s s' -> T2p s' /\ T3p s').
+  { intros s' [_ HU] HA. split; [eapply T2p_ATF; eassumption | eapply T3p_U; eassumption]. }
+  destruct o as [o|c p].
+  - destruct o; cbn [step_op_t];
+      try (eapply wpg_weaken; [apply (step_op_W _ s HI); reflexivity | intros s' [Hw Ha]; apply Hfin; assumption]).
+    + eapply wpg_weaken; [apply (@declare_static_files_t_spec false); exact HI|]. intros s' [_ [_ [K Hw]]].
+      apply Hfin; [apply Hw; apply declare_static_dom; exact Hdom | apply (proj2 K)].
+    + (* define_step: the hypothesis gives ATF *)
+      pose proof (@define_step_t_spec false creator label inp env out vol nd s HI) as Hsp.
+      unfold no_tree_reattached_b, apply_op_t in Hnr. cbn [step_op_t] in Hnr.
+      destruct (define_step_t creator label inp env out vol nd s) as [s'|x|x]; try exact I.
+      cbn in Hsp. destruct Hsp as [I' [_ Hw]]. cbn [wpg]. apply Hfin; [exact Hw|].
+      intros t Ht. apply (AT_attached_trees s' t (nw_nodup _ (inv_nw _ I'))) in Ht.
+      rewrite forallb_forall in Hnr. specialize (Hnr t Ht). apply negb_true_iff in Hnr. exact Hnr.
+    + eapply wpg_weaken; [apply (@amend_step_t_spec false); exact HI|]. intros s' [_ [_ [Hw K]]].
+      apply Hfin; [exact Hw | apply (proj2 K)].
+    + eapply wpg_weaken; [apply (@delete_detached_t_spec false); exact HI|]. intros s' [_ [_ [Hw Ha]]].
+      apply Hfin; assumption.
+  - cbn [step_op_t]. eapply wpg_weaken; [apply (@register_static_tree_spec false); exact HI|].
+    intros s' [_ [_ [_ H]]]. apply H; assumption.
+Qed.
+
+Lemma inv_tree_strong_iff s :
+  NoDup (map nk (nodes s)) -> (inv_tree_strong_b s = true <-> T1 s /\ T2p s /\ T3p s).
+Proof.
+  intros Hnd. unfold inv_tree_strong_b. rewrite !andb_true_iff, (T1_reflect s Hnd), (T2p_reflect s Hnd), (T3p_reflect s Hnd).
+  tauto.
+Qed.
+
+Lemma inv_tree_strong_preserved s o :
+  inv_core_b s = true -> inv_tree_strong_b s = true ->
+  static_requester_b o = true -> no_tree_reattached_b s o = true ->
+  inv_tree_strong_b (apply_op_t s o) = true.
+Proof.
+  intros Hc HT Hdom Hnr. pose proof (inv_core_t_preserved s o Hc) as Hc'.
+  pose proof Hc as Hcb. apply inv_core_b_iff in Hc. apply inv_core_b_iff in Hc'.
+  apply inv_tree_strong_iff; [apply (nw_nodup _ (inv_nw _ Hc'))|].
+  apply inv_tree_strong_iff in HT; [|apply (nw_nodup _ (inv_nw _ Hc))]. destruct HT as [H1 [H2 H3]].
+  unfold apply_op_t in *. pose proof (step_op_t_W o s Hc Hdom) as Hw.
+  pose proof (own_step o s Hc H2 H3 Hdom Hnr) as Ho.
+  destruct (step_op_t o s); [|auto|auto].
+  split; [eapply T1_TT; [exact H1 | apply (proj1 Hw)] | exact Ho].
+Qed.
+
+(* the strong conjuncts imply the three tree conjuncts of inv_tree_b *)
+Lemma inv_tree_of_strong s : inv_core_b s = true -> inv_tree_strong_b s = true -> inv_tree_b s = true.
+Proof.
+  intros Hc HT. apply inv_core_b_iff in Hc. pose proof (inv_nw _ Hc) as HW.
+  pose proof HT as HT'. apply inv_tree_strong_iff in HT'; [|apply (nw_nodup _ HW)]. destruct HT' as [H1 [H2 H3]].
+  unfold inv_tree_strong_b in HT. rewrite !andb_true_iff in HT. destruct HT as [[A B] _].
+  unfold inv_tree_b. rewrite A, B. cbn. apply tree_owns_of_claims; assumption.
+Qed.
+
+Lemma inv_tree_strong_init cap : inv_tree_strong_b (init_st cap) = true.
+Proof. vm_compute. reflexivity. Qed.
+
+Lemma reachable_inv_tree_strong cap ops :
+  tree_hyps_run (init_st cap) ops = true -> all_prefixes_ok_t inv_tree_strong_b (init_st cap) ops = true.
+Proof.
+  generalize (inv_tree_strong_init cap). generalize (inv_core_init cap). generalize (init_st cap).
+  induction ops as [|o ops IH]; intros s Hc Hs Hp; cbn [all_prefixes_ok_t]; rewrite Hs; [reflexivity|].
+  cbn in Hp. rewrite !andb_true_iff in Hp. destruct Hp as [[Hp1 Hp2] Hp3]. cbn.
+  apply IH; [apply inv_core_t_preserved; exact Hc | apply inv_tree_strong_preserved; assumption | exact Hp3].
 Qed.
